@@ -15,6 +15,10 @@ type writeTracker struct {
 	Shared    []string
 	Locked    []string
 	Total     int
+	// lockset discipline: cells / maps written while a lock is held, and read while none is
+	lockedW   map[interface{}]string
+	unlockedR map[interface{}]string
+	reported  map[interface{}]bool
 }
 
 func (ex *Exec) noteAlloc(addr *value) {
@@ -58,6 +62,8 @@ func (ex *Exec) noteStore(fr *frame, instr *ssa.Store, addr *value) {
 	where := fr.fn.String() + " at " + trimPath(ex.I.prog.Fset.Position(instr.Pos()).String())
 	if ex.heldLock() {
 		ex.track.Locked = append(ex.track.Locked, where)
+		ex.track.lockedW[addr] = where
+		ex.lockDiscipline(addr)
 		return
 	}
 	ex.track.Shared = append(ex.track.Shared, "store in "+where)
@@ -77,17 +83,61 @@ func (ex *Exec) noteWrite(fr *frame, instr ssa.Instruction, what string) {
 	where := fr.fn.String() + " at " + trimPath(ex.I.prog.Fset.Position(instr.Pos()).String())
 	if ex.heldLock() {
 		ex.track.Locked = append(ex.track.Locked, where)
+		if mu, ok := instr.(*ssa.MapUpdate); ok {
+			if m, ok := fr.get(mu.Map).(*omap); ok {
+				ex.track.lockedW[m] = where
+				ex.lockDiscipline(m)
+			}
+		}
 		return
 	}
 	ex.track.Shared = append(ex.track.Shared, what+" update in "+where)
 	ex.Note("shared-write", what+" update in "+where)
 }
 
+// noteLoad: a read of a shared cell (or map) outside any lock. Together with a
+// write to the same cell under a lock this is a read/write race (the lock
+// protects nothing the reader observes): reported as a shared write.
+func (ex *Exec) noteLoad(fr *frame, instr ssa.Instruction, key interface{}) {
+	if ex == nil || ex.track == nil || ex.heldLock() {
+		return
+	}
+	switch k := key.(type) {
+	case *value:
+		if k == nil || ex.track.fresh[k] {
+			return
+		}
+	case *omap:
+		if k == nil || ex.track.freshMaps[k] {
+			return
+		}
+	default:
+		return
+	}
+	if _, ok := ex.track.unlockedR[key]; !ok {
+		ex.track.unlockedR[key] = fr.fn.String() + " at " + trimPath(ex.I.prog.Fset.Position(instr.Pos()).String())
+	}
+	ex.lockDiscipline(key)
+}
+
+func (ex *Exec) lockDiscipline(key interface{}) {
+	t := ex.track
+	w, okw := t.lockedW[key]
+	r, okr := t.unlockedR[key]
+	if okw && okr && !t.reported[key] {
+		t.reported[key] = true
+		msg := "location written under a lock in " + w + " is read without the lock in " + r
+		t.Shared = append(t.Shared, msg)
+		ex.Note("shared-write", msg)
+	}
+}
+
 func vfTrackWrites(fr *frame, args []value) value {
 	ex := fr.i.ex
 	ex.impure("vfTrackWrites")
 	if args[0].(bool) {
-		ex.track = &writeTracker{fresh: map[*value]bool{}, freshMaps: map[*omap]bool{}}
+		ex.track = &writeTracker{fresh: map[*value]bool{}, freshMaps: map[*omap]bool{},
+			lockedW: map[interface{}]string{}, unlockedR: map[interface{}]string{}, reported: map[interface{}]bool{}}
 	} else {
 		ex.track = nil
 	}
